@@ -127,6 +127,12 @@ func (b *BFT) CheckProposerMessage(x *Message, p *validateMessageParams) (isPart
 	if isPartialQC {
 		return
 	}
+	// the justification must be the certificate of the previous phase of the very round the message is for: the
+	// message is filed under its header's round and phase, and a replica locks on (and later ranks) the certificate
+	// it carries, so a certificate of another round or phase must not ride in it
+	if x.Qc.Header.Round != x.Header.Round || x.Qc.Header.Phase != x.Header.Phase-1 {
+		return false, lib.ErrWrongPhase()
+	}
 	// validate header height, qc height, and committee height
 	// NOTE: these height checks are correct even when sending a highQC as the header is updated when using a highQC
 	if x.Header.Height != p.height {
